@@ -32,13 +32,14 @@ def supports_weights(sim):
 
 
 # ----------------------------------------------------------------------------
-def make_graph(n, edges, weights=None):
+def make_graph(n, edges, weights=None, shift=0):
+    """nodes are 1..n (shift=0) or 0..n-1 (shift=-1)"""
     import networkx as nx
     G = nx.Graph()
     for u in range(1, n + 1):
-        G.add_node(u, g=1.0 if weights is None else weights["g"][u - 1])
+        G.add_node(u + shift, g=1.0 if weights is None else weights["g"][u - 1])
     for i, (u, v) in enumerate(edges):
-        G.add_edge(u, v, w=1.0 if weights is None else weights["w"][i])
+        G.add_edge(u + shift, v + shift, w=1.0 if weights is None else weights["w"][i])
     return G
 
 
@@ -80,6 +81,18 @@ def call_sim(EoN, sim, G, sc, full):
     wkw = {}
     if sc.get("weighted") and supports_weights(sim):
         wkw = dict(transmission_weight="w", recovery_weight="g")
+    if sc.get("positional"):
+        ii = kw.pop("initial_infecteds")
+        rr = kw.pop("initial_recovereds", None)
+        if sim in ("fast_SIR", "Gillespie_SIR"):
+            return getattr(EoN, sim)(G, tau, gamma, ii, rr, **kw, **wkw)
+        if sim in ("fast_SIS", "Gillespie_SIS"):
+            return getattr(EoN, sim)(G, tau, gamma, ii, **kw, **wkw)
+        if sim in ("basic_discrete_SIR", "percolation_based_discrete_SIR"):
+            return getattr(EoN, sim)(G, p, ii, rr, **kw)
+        if sim == "basic_discrete_SIS":
+            return EoN.basic_discrete_SIS(G, p, ii, **kw)
+        raise ValueError("no positional form for " + sim)
     if sim == "fast_SIR":
         return EoN.fast_SIR(G, tau, gamma, **kw, **wkw)
     if sim == "Gillespie_SIR":
